@@ -1,5 +1,26 @@
 /-
 C33  Network message decoders withstand arbitrary peer input.
+
+Model: `Gossamer.C33.decode : Kind → Bytes → Out Msg` (Model/C33.lean), every decoder a peer's bytes
+reach, over the SCALE model of C11/C12 and the protobuf-go wire model of Lib/C33Wire.lean.
+
+  C33_no_panic                 no input drives any decoder into a partial operation of its glue
+                               (nil dereference of the starting block, Uint32 of a short slice, …)
+  C33_reencode                 decode k bs = ok m → decode k (encode k m) = ok m, for all k, bs
+                               (`encode` = the Go `Encode()`/`ToConsensusMessage()`); the hypothesis
+                               "the re-encoding is shorter than 2^64 bytes" is needed for block
+                               responses only:
+  C33_reencode_small           … every other decoder, no hypothesis
+  C33_steps_linear             unmarshal calls + glue iterations ≤ stepsA k * |bs| + stepsB k
+  C33_steps_constants          the constants, e.g. (10,119) block announce, (139,324) GRANDPA message
+  C33_steps_block              block response: SCALE work per block linear in the field sizes protobuf
+                               hands over (protobuf library trusted)
+  C33_alloc_linear_partial     read-buffer bytes ≤ 67 * steps for the decoders without Go []byte/string
+  C33_alloc_linear_counterexample   (known finding bytes-alloc) 107 bytes of block announcement
+                               allocate 2^30 bytes
+Supporting: `steps_ok` (Lib/C33Cost.lean: steps ≤ sA t * consumed + sB t for every type whose
+sequence elements take ≥ 1 byte), `unmarshal_reencode` (Lib/C33Scale.lean: whatever scale.Unmarshal
+returns survives Marshal/Unmarshal), `goParse_encFields` (Lib/C33WireLemmas.lean).
 -/
 import Gossamer.Model.C33
 import Gossamer.Lib.C33Reencode
